@@ -18,6 +18,9 @@ Property theorems over `KanidmModel/Migration.lean` (which runs on the regenerat
 namespace Kanidm.Migration
 open Kanidm.Gen.Migration
 
+/-- `r` is the refusal `c` -/
+def FailsWith {ε α : Type} (r : Except ε α) (c : ε) : Prop := r = Except.error c
+
 /-! ## 1. the upsert of one definition -/
 
 /-- attributes the migrate arm never asserts: not named by the definition, the uuid, `member_create_once`,
@@ -203,7 +206,8 @@ theorem migrateOrCreate_nodup (env : Env) (db db' : List DbEntry) (u : Nat) (d :
 
 /-- with unique uuids the `InvalidDbState` arm of the upsert is unreachable -/
 theorem no_invalid_state (env : Env) (db : List DbEntry) (u : Nat) (d : Def) (hn : UuidNodup db) :
-    migrateOrCreate env db u d ≠ .error .invalidDbState := by
+    ¬ FailsWith (migrateOrCreate env db u d) Err.invalidDbState := by
+  unfold FailsWith
   have hlen : (hits db u).length ≤ 1 := by
     unfold UuidNodup at hn
     unfold hits
@@ -594,16 +598,16 @@ theorem batch_carries (env : Env) : ∀ (defs : List (Nat × Def)) (db : List Db
 
 /-- **A downgrade is refused.** -/
 theorem init_refuses_downgrade (dbv tgt : Nat) (taint : Bool) (patch : Nat) (h : tgt < dbv) :
-    initialiseExisting dbv tgt taint patch = .error .MG0010 := by
-  unfold initialiseExisting
+    FailsWith (initialiseExisting dbv tgt taint patch) Code.MG0010 := by
+  unfold FailsWith initialiseExisting
   have h1 : needsUpgrade dbv tgt = false := by simp [needsUpgrade]; omega
   have h2 : isDowngrade dbv tgt = true := by simp [isDowngrade]; omega
   simp [h1, h2]
 
 /-- **An upgrade from below the supported minimum is refused** (no skipping). -/
 theorem init_refuses_skip (dbv tgt : Nat) (taint : Bool) (patch : Nat) (h : dbv < tgt)
-    (hs : dbv < domainMigrationFromMin) : initialiseExisting dbv tgt taint patch = .error .MG0008 := by
-  unfold initialiseExisting
+    (hs : dbv < domainMigrationFromMin) : FailsWith (initialiseExisting dbv tgt taint patch) Code.MG0008 := by
+  unfold FailsWith initialiseExisting
   have h1 : needsUpgrade dbv tgt = true := by simp [needsUpgrade]; omega
   have h2 : skipRefused dbv = true := by simp [skipRefused]; omega
   simp [h1, h2]
